@@ -143,8 +143,14 @@ class World:
     def __init__(self):
         self.root = os.path.realpath(tempfile.mkdtemp(prefix="dippy-verif-"))
         os.chmod(self.root, 0o755)
-        for d in ("home", "trees", "store", "links", "out", "logs", "procwd", "chome", "neutral", "envs"):
+        for d in ("home", "trees", "store", "links", "out", "logs", "procwd", "envs"):
             os.makedirs(os.path.join(self.root, d))
+        # the one-concatenated-file runs live in a scratch directory of their own: nothing a layout puts into the
+        # world (a .dippy at its very top included) is an ancestor of their cwd or of their HOME
+        self.aside = os.path.realpath(tempfile.mkdtemp(prefix="dippy-verif-"))
+        os.chmod(self.aside, 0o755)
+        for d in ("chome", "neutral"):
+            os.makedirs(os.path.join(self.aside, d))
         self.home = os.path.join(self.root, "home")
         self.tx = Texts(self.root)
         self.capdrop = self._probe_capdrop()
@@ -252,7 +258,7 @@ class World:
 
     def concat_home(self, text):
         key = lib.sha(text)
-        home = os.path.join(self.root, "chome", key)
+        home = os.path.join(self.aside, "chome", key)
         if not os.path.isdir(home):
             os.makedirs(os.path.join(home, ".dippy"))
             with open(os.path.join(home, ".dippy", "config"), "w", encoding="utf-8") as f:
@@ -263,7 +269,7 @@ class World:
         key, home = self.concat_home(text)
         if key in self.concat_cache:
             return lambda: self.concat_cache[key]
-        thunk = self.submit_vector(os.path.join(self.root, "neutral"), "json", home, None)
+        thunk = self.submit_vector(os.path.join(self.aside, "neutral"), "json", home, None)
 
         def collect():
             self.concat_cache[key] = thunk()
@@ -273,7 +279,7 @@ class World:
     def concat_log_probe(self, text):
         key, home = self.concat_home(text)
         if key not in self.concat_log_cache:
-            self.concat_log_cache[key] = self.log_probe(os.path.join(self.root, "neutral"), "json", home, None)
+            self.concat_log_cache[key] = self.log_probe(os.path.join(self.aside, "neutral"), "json", home, None)
         return self.concat_log_cache[key]
 
     def concat_vector(self, text, with_log):
@@ -297,6 +303,7 @@ class World:
             except OSError:
                 pass
         shutil.rmtree(self.root, ignore_errors=True)
+        shutil.rmtree(self.aside, ignore_errors=True)
 
 
 # ------------------------------------------------------------------------------------------------ building a layout
